@@ -54,6 +54,7 @@ def _text(prefix, names):
 
 # NCNames with characters outside \\w: combining marks (Devanagari / Thai vowel signs and tone marks, a decomposed
 # accent), U+00B7, next to precomposed and CJK names — all legal XML names that pyxform accepts
+UNICODE_NAMES_SKIP = ()
 UNICODE_NAMES = {
     "tq": "\u0928\u093e\u092e", "tg": "\u0e0a\u0e37\u0e48\u0e2d", "tr": "e\u0301cole", "cq": "a\u00b7b",
     "k1": "pr\u00e9nom", "c1": "\u540d\u524d", "t1": "\u0915\u093f\u0924\u093e\u092c", "cg": "n\u0303g",
@@ -76,7 +77,29 @@ def rename_form(form, mapping):
     return form
 
 
-def layout_form(common, rchain, tchain, policy, target_first=True):
+LITE_KEEP = {"cq": ("type", "name", "label", "relevant", "constraint", "default"),
+             "drop": ("kl", "s", "sn", "dd", "ddt", "dgp", "dgt", "dgs", "dti", "cx", "cxq")}
+
+
+def layout_form(common, rchain, tchain, policy, target_first=True, lite=False):
+    """lite: the referrers keep one cell per call site (the full set of cell kinds is carried by the neutral policy)"""
+    if lite:
+        form = layout_form(common, rchain, tchain, policy, target_first)
+        out, skipping = [], False
+        for r in form["survey"]:
+            if r.get("type") == "begin repeat" and r.get("name") == "cx":
+                skipping = True
+                continue
+            if skipping:
+                skipping = r.get("type") != "end repeat"
+                continue
+            if r.get("name") in LITE_KEEP["drop"] and not str(r.get("label", "")).startswith("again"):
+                continue
+            if r.get("name") == "cq":
+                r = {k: v for k, v in r.items() if k in LITE_KEEP["cq"]}
+            out.append(r)
+        form["survey"] = out
+        return form
     if policy == "unicode":
         return rename_form(layout_form(common, rchain, tchain, "neutral", target_first), UNICODE_NAMES)
     kn, cn, tn = rc.names_for(policy, common, rchain, tchain)
@@ -125,6 +148,10 @@ def layout_form(common, rchain, tchain, policy, target_first=True):
             "required_message": _text("RM", T), "read_only": _bool(T, "= 'ro'"),
             "default": _concat(T), "bind::custom": _concat(T), "body::custom": _concat(T),
         })
+        for typ, nm, dflt in (("date", "dd", "${tq} - 1"), ("dateTime", "ddt", "now() - ${tq}"),
+                              ("geopoint", "dgp", "${tq} - ${tg} - 2"), ("geotrace", "dgt", "if(${tq} - 1 > 0, ${tg}, ${tr})"),
+                              ("geoshape", "dgs", "${tr} - ${tq}"), ("time", "dti", "1 - ${tq}")):
+            rows.append({"type": typ, "name": nm, "label": nm.upper(), "default": dflt})
         rows.append({"type": "calculate", "name": "k", "calculation": _concat(T)})
         rows.append({"type": "calculate", "name": "kt", "calculation": _concat(T), "trigger": "${tq}"})
         rows.append({"type": "calculate", "name": "kl",
@@ -308,25 +335,6 @@ def code_ia_flag(src, start, end, name):
     return False
 
 
-def code_ip_flag(src, start, end):
-    """`_in_secondary_instance_predicate` as the code decides it (RE_INSTANCE / RE_BRACKET of survey.py 36-39): the
-    model's `inPredicate` input for cells whose whole text is the regex subject (binds, attributes)."""
-    if re.search(r"instance\([^)]+.+", src) is None:
-        return False
-    return any(start >= m.start() and end <= m.end() for m in re.finditer(r"\[([^]]+)\]", src))
-
-
-def after_nested_bracket(src, start):
-    """the occurrence sits in an open `[` and a `]` of a nested predicate lies between that `[` and it"""
-    opens = []
-    for i, c in enumerate(src[:start]):
-        if c == "[":
-            opens.append(i)
-        elif c == "]" and opens:
-            opens.pop()
-    return bool(opens) and "]" in src[opens[0]:start]
-
-
 # --------------------------------------------------------------------------- oracle
 
 
@@ -416,13 +424,32 @@ def probes(form, xi: rc.XIndex):
     return els, out
 
 
+HYPHEN_TYPES = ("date", "dateTime", "geopoint", "geotrace", "geoshape")
+
+
+def minus_before_first_dynamic(row) -> bool:
+    """finding F46's shape: a date/geo question whose default has a blank-surrounded minus before its first reference
+    or function call (`default_is_dynamic` returns False at that token and never sees the reference)"""
+    d = row.get("default")
+    if not isinstance(d, str) or "${" not in d or (row.get("type") or "").strip() not in HYPHEN_TYPES:
+        return False
+    m = re.search(r"\$\{|[A-Za-z_][\w.-]*\(", d)
+    return " - " in d[: m.start()] if m else False
+
+
 def check_form(ctx, form, xform, model=None):
     """The oracle on one accepted conversion. Returns the list of observed holes (for correspondence)."""
     case = {"form": form}
     xi = rc.XIndex(xform)
     if "${" in xform:
         i = xform.index("${")
-        _fail(ctx, Failure("ref-token-survives", f"`${{` left in the output: …{xform[max(0,i-60):i+40]}…", case))
+        # is every surviving token the raw default of an F46-shaped row?
+        rest = xform
+        for row in form["survey"]:
+            if minus_before_first_dynamic(row):
+                rest = rest.replace(row["default"], "")
+        _fail(ctx, Failure("ref-token-survives", f"`${{` left in the output: …{xform[max(0,i-60):i+40]}…", case,
+                           extra={"only_static_minus_defaults": "${" not in rest}))
     els, prs = probes(form, xi)
     byname = {}
     for e in els:
@@ -442,7 +469,8 @@ def check_form(ctx, form, xform, model=None):
             continue
         if not got:
             _fail(ctx, Failure("cell-not-found", f"{cell} of {cpath}: emitted string not found", case,
-                             extra={"cell": cell, "referrer": cpath}))
+                             extra={"cell": cell, "referrer": cpath,
+                                    "only_static_minus_defaults": cell == "default" and minus_before_first_dynamic(e.row)}))
             continue
         for out, _n in got:
             mt = rc.match_template(src, out)
@@ -467,7 +495,7 @@ def check_form(ctx, form, xform, model=None):
                 else:
                     tkinds = e.kinds[:-1] + ["q"]
                     tkind = "q"
-                holes.append({"cell": cell, "src": src, "info": info, "flags": fl, "hole": hole, "ctx": cpath,
+                holes.append({"cell": cell, "src": src, "out": out, "info": info, "flags": fl, "hole": hole, "ctx": cpath,
                               "cpath": cpath.strip("/").split("/"), "ckinds": e.kinds if cpath == e.xpath() else e.kinds[:-1] + ["q"],
                               "ckind": e.kind, "tpath": tpath, "tkinds": tkinds, "tkind": tkind,
                               "trigger": byname[extra["__trigger"]][0].xpath() if extra.get("__trigger") in byname else None})
@@ -579,8 +607,34 @@ def corr_find(ctx, texts):
             ctx.mismatch("refsClosed", {"text": t}, impl_closed, m["closed"])
 
 
+FULL_CELLS = ("relevant", "constraint", "required", "read_only", "calculation", "bind::custom", "body::custom", "default",
+              "choice_filter", "repeat_count-expr", "trigger-value")
+
+
+def corr_insert(ctx, form, holes, tree):
+    """whole emitted strings against the model's `insertXpathsText`, which gets the cell text alone (occurrence flags —
+    indexed-repeat argument, instance predicate, last-saved — are computed in Lean)"""
+    seen, items, outs = set(), [], []
+    for h in holes:
+        key = (h["cell"], h["ctx"], h["src"], h["out"])
+        if h["cell"] not in FULL_CELLS or key in seen:
+            continue
+        seen.add(key)
+        items.append({"ctx": h["ctx"], "uc": h["cell"] == "choice_filter", "rp": False, "text": h["src"]})
+        outs.append(h)
+    if not items:
+        return
+    for h, q, m in zip(outs, items, ctx.driver.call("refs.insert", tree=tree, items=items)):
+        ctx.count(f"insert_xpaths-from-text:{m['out']}")
+        if m["out"] == "unsupported":
+            continue
+        if m["out"] != "ok" or m["text"] != h["out"]:
+            ctx.mismatch(f"insert_xpaths of {h['cell']}", {"form": form, "query": q}, h["out"], m.get("text", m["out"]))
+
+
 def corr_whole(ctx, form, holes, survey):
     """every hole of the conversion against the model's `refFor` on the implementation's tree"""
+    corr_insert(ctx, form, holes, survey_tree(survey))
     srcs = sorted({h["src"] for h in holes})
     if srcs:
         corr_find(ctx, srcs)
@@ -591,27 +645,17 @@ def corr_whole(ctx, form, holes, survey):
         q = {"ctx": h["ctx"], "name": h["info"]["name"],
              "ls": h["info"]["last_saved"],
              "ia": code_ia_flag(h["src"], h["info"]["start"], h["info"]["end"], h["info"]["name"]),
-             "ip": (code_ip_flag(h["src"], h["info"]["start"], h["info"]["end"]) if h["cell"] not in TEXT_CELLS
-                    else h["flags"]["in_pred"]) and h["cell"] != "choice_filter",
+             "ip": h["flags"]["in_pred"] and h["cell"] != "choice_filter",
              "uc": h["cell"] == "choice_filter", "rp": False}
         qs.append(q)
         hs.append(h)
     if not qs:
         return
     res = ctx.driver.call("refs.model", tree=tree, queries=qs)
-    # `inPredicate` is an input of the model.  Where the code's regex verdict (first `]` ends the predicate) and the
-    # bracket-depth reading differ — finding F44 — a repaired `_in_secondary_instance_predicate` yields the model
-    # value at the other input; the oracle, not the correspondence, judges which one the property demands.
-    alt = [(h, dict(q, ip=h["flags"]["in_pred"])) for h, q in zip(hs, qs)
-           if h["cell"] not in TEXT_CELLS and h["cell"] != "choice_filter" and q["ip"] != h["flags"]["in_pred"]]
-    altres = {}
-    if alt:
-        for (h, _q), m in zip(alt, ctx.driver.call("refs.model", tree=tree, queries=[q for _h, q in alt])):
-            altres[id(h)] = (m.get("text") or "").strip() if m["out"] == "ok" else m["out"]
     for h, q, m in zip(hs, qs, res):
         got = h["hole"]
         want = (m.get("text") or "").strip() if m["out"] == "ok" else m["out"]
-        if got != want and altres.get(id(h)) != got:
+        if got != want:
             ctx.mismatch(f"hole of {h['cell']}", {"form": form, "query": q}, got, want)
 
 
@@ -764,10 +808,11 @@ def explore(ctx, factor, bs):
             if policy in ("prefix", "aligned") and not (rchain or tchain):
                 continue
             n += 1
-            form = layout_form(common, rchain, tchain, policy, target_first=(n % 2 == 0))
+            form = layout_form(common, rchain, tchain, policy, target_first=(n % 2 == 0),
+                               lite=ctx.quick() and policy != "neutral")
             ctx.count(f"policy:{policy}")
             ctx.count(f"depth:{len(common) + max(len(rchain), len(tchain))}")
-            form_case(ctx, form, direct=ctx.pick(20, 100) * factor)
+            form_case(ctx, form, direct=ctx.pick(12, 100) * factor)
         if len(common) + max(len(rchain), len(tchain)) <= ctx.pick(2, 3):
             n += 1
             ctx.count("policy:unicode")
@@ -796,11 +841,18 @@ def explore(ctx, factor, bs):
             if mres["out"] != "ambiguous":
                 ctx.mismatch("ambiguous name", case, "ambiguous", mres)
             ctx.record(case, True)
+    # finding F46's shape: minus before the first reference in a date/geo default (and the same default on other types)
+    for typ in HYPHEN_TYPES + ("integer", "text"):
+        for dflt in ("1 - ${a}", "2020-01-01 - ${a}", "${a} - 1", "-1 - ${a}"):
+            form = {"survey": [{"type": "begin repeat", "name": "R", "label": "R"}, {"type": "integer", "name": "a", "label": "A"},
+                               {"type": typ, "name": "q", "label": "Q", "default": dflt}, {"type": "end repeat"}]}
+            ctx.count(f"typed-default:{typ}")
+            form_case(ctx, form, tag="typed-default")
     # the reference regex on adversarial strings (unclosed braces, nested openers, newlines, last-saved prefixes)
     texts = ["".join(ctx.rng.choice(FIND_ATOMS) for _ in range(ctx.rng.randint(1, 8))) for _ in range(ctx.pick(400, 5000) * factor)]
     corr_find(ctx, texts)
     # random deeper trees, mixed expressions
-    nrand = ctx.pick(300, 6000) * factor
+    nrand = ctx.pick(250, 6000) * factor
     for i in range(nrand):
         rows, els = random_form(ctx.rng, ctx.rng.choice([3, 5, ctx.pick(6, 8)]), ctx.rng.choice([6, 12, 25]))
         if not els:
@@ -823,16 +875,14 @@ def replay(ctx, payload, bs):
     return (len(ctx.failures), len(ctx.mismatches)) == before
 
 
-def m_ref_after_nested_bracket(f: Failure) -> bool:
-    """`_in_secondary_instance_predicate` finds predicates with RE_BRACKET = \\[([^]]+)\\], which ends at the first `]`:
-    a reference that follows a nested `[...]` inside an instance() predicate is not seen as inside it and gets a
-    relative path without current() (call sites that pass use_current=True — choice filters — are not affected)"""
-    x = f.extra
-    return (f.kind == "predicate-not-anchored" and x.get("cell") not in ("choice_filter",) + TEXT_CELLS
-            and x.get("src") is not None and after_nested_bracket(x["src"], x.get("start", 0)))
+def m_minus_before_ref_default(f: Failure) -> bool:
+    """utils.default_is_dynamic returns False at the first blank-surrounded `-` of a date/dateTime/geo default, before it
+    has seen a later `${reference}` / function call: the default is written raw into the instance, the reference is
+    never expanded (nor checked)"""
+    return f.kind in ("ref-token-survives", "cell-not-found") and f.extra.get("only_static_minus_defaults") is True
 
 
-MATCHERS = {"F44-predicate-ref-after-nested-bracket": m_ref_after_nested_bracket}
+MATCHERS = {"F46-default-minus-before-reference": m_minus_before_ref_default}
 
 
 def main(argv):
